@@ -13,7 +13,7 @@ import (
 
 var profC01 = vlib.Profile{
 	Prop: "C01", MinLogs: 1, MaxLogs: 2, MinOps: 4, MaxOps: 40,
-	Storages: []string{"mem", "sql"}, Weights: weightsC01, MaxJump: 4096, OtherLogPct: 10, Decorate: 10, NonCanonPct: 5, MixOldPct: 5,
+	Storages: []string{"mem", "sql"}, Weights: weightsC01, MaxJump: 4096, OtherLogPct: 10, Decorate: 10, NonCanonPct: 5, MixOldPct: 5, ECDSAPct: 15,
 }
 
 // weightsC01 = the default adversarial mix plus size-0 states (a log may sign several
